@@ -117,6 +117,48 @@ def make_pairs_harness(recipes):
     return harness
 
 
+def shared_harness(e):
+    """Trees in which one node OBJECT sits at several positions, compared with trees that share
+    in another pattern or not at all: the relation is about positions, not about objects."""
+    from models.zoo import VLeaf, VMany, VReq, origin
+
+    reset_all()
+    keys = [None, "a", "b"]
+    # three positions; origin key per position for x and for y
+    ox = [e.pick(keys, f"x_origin{i}") for i in range(3)]
+    oy = [e.pick(keys, f"y_origin{i}") for i in range(3)]
+    pattern_x = e.pick(["none", "01", "12", "02", "012"], "x_shares_positions")
+    pattern_y = e.pick(["none", "01", "12"], "y_shares_positions")
+    wrap = e.flag("below_a_wrapper")
+
+    def make(origins, pattern):
+        objs: list[Any] = [None, None, None]
+        for grp in ([pattern] if pattern != "none" else []):
+            idx = [int(c) for c in grp]
+            if len({origins[i] for i in idx}) != 1:
+                return None  # one object has one origin: this assignment does not exist
+            kw = {} if origins[idx[0]] is None else {"origin": origin(origins[idx[0]])}
+            node = VReq(child=VLeaf(v=1), **kw) if wrap else VLeaf(v=1, **kw)
+            for i in idx:
+                objs[i] = node
+        for i in range(3):
+            if objs[i] is None:
+                kw = {} if origins[i] is None else {"origin": origin(origins[i])}
+                objs[i] = VReq(child=VLeaf(v=1), **kw) if wrap else VLeaf(v=1, **kw)
+        return VMany(items=tuple(objs))
+
+    x, y = make(ox, pattern_x), make(oy, pattern_y)
+    if x is None or y is None:
+        e.assume(False)
+    want = [origin_class(k) for k in ox] == [origin_class(k) for k in oy]
+    got = [x == y, y == x, not (x != y)]
+    scenario = {"kind": "shared-objects", "x_origins": ox, "y_origins": oy, "x_shares_positions": pattern_x, "y_shares_positions": pattern_y, "below_a_wrapper": bool(wrap), "expected_equal": want, "eq": got[0], "eq_reversed": got[1]}
+    if any(g is not want for g in got):
+        e.fail(("equal-trees-compare-unequal" if want else "unequal-trees-compare-equal") + ":shared-objects", scenario=scenario)
+    e.distinct((tuple(ox), tuple(oy), pattern_x, pattern_y, bool(wrap)))
+    return scenario
+
+
 def _triple_pool():
     L = lambda v, o=None: R("VLeaf", {"v": v}, o)  # noqa: E731
     out = []
@@ -189,9 +231,13 @@ def spec(tier: str, seed: int) -> Spec:
         bases = all_shapes(3, 3) + all_shapes(4, 3)[40::3] + all_shapes(5, 3)[140::12]
     else:
         bases = all_shapes(5, 3) + all_shapes(6, 3)[422::8]
+    from models.shapes import exotic_shapes
+
+    bases = bases + exotic_shapes()
     chunk = 6
     fams = [Family(f"origin-edit[{k}:{k + chunk}]", make_origin_harness(bases[k : k + chunk]), variables="selectors: base recipe, position, origin of x, origin of y, mode") for k in range(0, len(bases), chunk)]
     fams.append(Family("all-pairs", make_pairs_harness(all_shapes(3, 3)), variables="selectors: two recipes"))
+    fams.append(Family("shared-objects", shared_harness, variables="selectors: origin per position of x and y, which positions hold one shared object, wrapper"))
     fams.append(Family("triples", triple_harness, variables="selectors: three trees from a pool with equal-but-distinct origins"))
     fams.append(Family("foreign", foreign_harness, variables="selector: comparand kind"))
     return Spec(
